@@ -10,6 +10,21 @@ from taskiq.serialization import exception_to_python, prepare_exception
 _ReturnType = TypeVar("_ReturnType")
 
 
+class _JsonCoder:
+    """
+    JSON coder used to find out whether exception arguments are serializable.
+
+    Unlike plain `json.dumps` it produces UTF-8 bytes as pydantic does, therefore
+    it rejects strings with lone surrogates, which can't be dumped to JSON later.
+    """
+
+    loads = staticmethod(json.loads)
+
+    @staticmethod
+    def dumps(obj: Any) -> bytes:
+        return json.dumps(obj, ensure_ascii=False).encode("utf-8")
+
+
 class TaskiqResult(BaseModel, Generic[_ReturnType]):
     """Result of a remote task invocation."""
 
@@ -35,7 +50,7 @@ class TaskiqResult(BaseModel, Generic[_ReturnType]):
         :param value: exception to serialize.
         """
         if value:
-            return prepare_exception(value, json)
+            return prepare_exception(value, _JsonCoder)
 
         return None
 
